@@ -780,6 +780,16 @@ func (fr *Frame) loopHead(b *ssa.BasicBlock, st *State, r string) {
 		}
 		vc.assumeIf(r, g)
 	}
+	for _, as := range ls.IterAssumes {
+		ctx := fr.specCtx(st, fr.entry, b, 0)
+		g, err := ctx.evalBool(as.E)
+		if err != nil {
+			vc.unsupportedf("loop %d assume_iter: %v", ord, err)
+			continue
+		}
+		vc.assumeIf(r, g)
+		vc.note("assumed in every iteration of loop %d of %s: %s", ord, vc.name, as.Text)
+	}
 	if ls.Decreases != nil {
 		ctx := fr.specCtx(st, fr.entry, b, 0)
 		d, err := ctx.eval(ls.Decreases.E)
